@@ -2140,7 +2140,21 @@ mod l2 {
     }
 }
 
+/// The authenticity verdicts of the node-level group reception scenario (`sim/grouprx.rs`).
+fn check_node_group_rx(case: &vh::sim::grouprx::GrxCase) -> Case {
+    use vh::sim::grouprx::{run, Class};
+    let out = run(case);
+    if let Some(why) = &out.inconclusive {
+        return Case::inconclusive(why.clone());
+    }
+    match out.first(Class::Auth) {
+        Some(f) => Case::fail(f.signature.clone(), f.detail.clone()),
+        None => Case::pass(out.nontrivial).labels(out.labels.clone()),
+    }
+}
+
 fn main() {
+    vh::util::init_stderr_log();
     let mut run = Run::new(
         "C03",
         "exploration",
@@ -2174,6 +2188,13 @@ fn main() {
     run.assume("L2: forged packets carry fresh counters so that they reach the authentication step; a session's last-use stamp may change on lookup");
     let n = run.cases(60_000, 2_000_000);
     run.prop("node-reject-state-unchanged", n, l2::l2_case, l2::check_l2);
+
+    // ---- L2: the node's GROUP receive path (key-candidate loop, session id match, AEAD) --------
+    run.assume("node-group-rx: group keys are derived with the crate's own KeySet::update / derive_group_session_id and datagrams are built with PacketHdr::encode; the hooks Sessions::verif_group_ctr_entries and ExchangeId::verif_session_id are read-only");
+    run.assume("node-group-rx: one device with 1-2 fabrics x 1-2 key sets (1-2 epoch keys) x 1-3 groups (<= 4 key map entries) and 1-3 senders per fabric receives 1-25 generated group datagrams (genuine with counters relative to the sender's history, replays, bit flips per zone, truncation, extension, cross-key, other-fabric key, wrong session id, unknown group, random key, foreign nonce node, control flag, R flag, bursts of 14-18 further senders) 10 ms apart while the application keeps each delivered exchange for 0/5/15/25 ms; non-trivial = a rejected datagram is followed by a delivered genuine one of the same sender carrying an equal or older counter; findings made while or after a datagram arrived during the handling of an earlier message from the same address/node/session id carry the suffix ':handling-overlap'");
+    run.assume("node-group-rx: a sender does not reuse a 32-bit counter value (control vs data counter space, or a data counter 2^32 messages later) while the device still handles the earlier message carrying it; whether a refused (duplicate) authenticated message refreshes the least-recently-used order of the 16 tracked senders is left open (three-valued eviction model)");
+    let n = run.cases(40_000, 2_000_000);
+    run.prop("node-group-rx", n, vh::sim::grouprx::grx_case, check_node_group_rx);
 
     run.finish();
 }
